@@ -188,7 +188,10 @@ impl Operator<'_> {
             self,
             SUPPORT_ASYNC_CANCEL,
             AsyncCancel,
-            AsyncCancel::new(user_data).build().user_data(user_data)
+            // the completion of the cancel request itself is of no interest to anybody
+            AsyncCancel::new(user_data)
+                .build()
+                .user_data(crate::common::constants::IO_URING_TIMEOUT_USERDATA)
         )
     }
 
